@@ -188,6 +188,22 @@ def database_matrices_are_values(name):
         return "the standard matrix differs from the database matrix of its name"
     if before.score_matrix().tolist() != ref.tolist():
         return "a matrix built earlier changed"
+    # however a matrix was built (database name, dictionary, standard matrix), its score table cannot be written:
+    # an in-place rescaling attempt is refused and later alignments see the documented scores
+    candidates = [("built from the database name", after), ("built from a dictionary", align.SubstitutionMatrix(alph, alph, align.SubstitutionMatrix.dict_from_db(name)))]
+    if std is not None:
+        candidates.append(("standard matrix", std))
+    for how, mat in candidates:
+        keep = mat.score_matrix().copy()
+        for attempt in (lambda t: t.__imul__(3), lambda t: np.fill_diagonal(t, 99), lambda t: t.__setitem__((0, 0), 77)):
+            try:
+                attempt(mat.score_matrix())
+            except (ValueError, TypeError):
+                pass
+        if mat.score_matrix().tolist() != keep.tolist():
+            return f"the score table of a matrix {how} ({name}) can be written in place: its scores changed"
+        if mat.score_matrix().flags.writeable:
+            return f"score_matrix() of a matrix {how} ({name}) is writeable"
     return None
 
 
